@@ -12,8 +12,36 @@ HANDS_OUT_REFERENCE = {
 
 
 def run(ctx, chk):
-    prog = ctx.prog()
+    _run(ctx, chk, ctx.prog(), "")
+    if ctx.tier == "thorough":
+        # the configuration without the pretty printer has a different function and global inventory
+        _run(ctx, chk, ctx.prog(overrides={"CBOR_PRETTY_PRINTER": 0}), "[CBOR_PRETTY_PRINTER=0] ")
+        chk.extra["configurations"] = ["default", "CBOR_PRETTY_PRINTER=0"]
+
+
+def _run(ctx, chk, prog, tag):
     eff = ctx.effects(prog)
+    if tag:
+        base = chk
+
+        class _Tagged:
+            """view of the Check that prefixes instances and keys with the configuration"""
+            def __getattr__(self, a):
+                return getattr(base, a)
+
+            def __setattr__(self, a, v):
+                setattr(base, a, v)
+
+            def ob(self, rule, instance, ok, where="", detail="", nontrivial=True, fn="", key=None, path=None):
+                return base.ob(rule, tag + instance, ok, where, detail, nontrivial, fn, tag + (key or instance), path)
+
+            def floor(self, rule, what, count, minimum):
+                return base.floor(rule, tag + what, count, max(1, minimum * 3 // 4))
+
+            def rule(self, name, text):
+                if name not in base.rules:
+                    base.rule(name, text)
+        chk = _Tagged()
     chk.explanation = ("deep interprocedural effect analysis (E1): for every exported function with a "
                        "`const cbor_item_t*` parameter (qualifier read from the function's debug-info signature), no "
                        "store in the function or any transitive callee targets memory derived from that parameter "
